@@ -55,7 +55,9 @@ RELATIVE = {'ftp': 21, 'gopher': 70, 'http': 80, 'https': 443, 'ws': 80, 'wss': 
 HOSTS = ['a.example.com', 'b.example.com', 'example.com', 'www.other.test', 'other.test', 'localhost',
          '127.0.0.1', '[::1]', '[2001:db8::7]', 'b\u00fccher.example', '\u4f8b\u3048.\u30c6\u30b9\u30c8',
          'EXAMPLE.com', 'a.example.com.', '0x7f.1', '1.2.3.4', 'xn--bcher-kva.example', 'sub.a.example.com',
-         '[::ffff:1.2.3.4]', '\uff41.example.com']
+         '[::ffff:1.2.3.4]', '\uff41.example.com',
+         # escapes in the host: refused today; decoded, they would carry line breaks and blanks into the Host field
+         'ex%61mple.com', 'cdn%0D%0Amirror.test', 'h%09x.example.com']
 USERINFO = ['', '', '', 'user', 'user:pw', ':pw', 'us%40er:p%3Aw', 'u%0D%0AX-Inj%3A1:p%0Aq', '\u00fcser:p\u00e455',
             'u:p%20w', 'a b:c d', 'u:', 'adm:s3cr3t', 'x%2Fy:z%5C', 'u\U0001f600:p\u20ac', 'U:P:Q']
 PORTS = ['', '', '', ':80', ':443', ':8080', ':0', ':65535', ':081', ':21']
@@ -200,6 +202,14 @@ def seed_cases():
          'responses': [{'status': 401, 'set_cookie': [L('k=v; Path=/')]}, {'status': 308, 'location': L('http://other.test/z')},
                        {'status': 301, 'location': L('/q')}, {'status': 307, 'location': L('https://b.example.com:8443/r?s')},
                        {'status': 200}]},
+        # a login in the URL and a literal '@' later in the path / the query: the cookies are those of the host in the authority
+        {'url': 'http://user:pw@a.example.com/mail?to=info@other.test/', 'opts': {}, 'login': None, 'use_jar': True,
+         'preload': [{'url': 'http://other.test/', 'set_cookie': ['session=topsecret; Path=/']},
+                     {'url': 'http://a.example.com/', 'set_cookie': ['own=1; Path=/']}],
+         'responses': [{'status': 200, 'set_cookie': [L('fresh=1; Path=/')]}]},
+        {'url': 'http://bob:pw@a.example.com/@other.test/profile', 'opts': {}, 'login': None, 'use_jar': True,
+         'preload': [{'url': 'http://other.test/', 'set_cookie': ['t=9; Domain=.other.test; Path=/']}],
+         'responses': [{'status': 302, 'location': L('/next?c=x@other.test'), 'set_cookie': [L('k=v; Path=/')]}, {'status': 200}]},
         # F32: parent URL with credentials
         {'url': 'http://b.example.com/', 'parent': 'http://pu:pp@a.example.com/dir/?q', 'opts': {}, 'login': None,
          'use_jar': False, 'responses': [{'status': 307, 'location': L('http://other.test/')}, {'status': 200}]},
